@@ -7,8 +7,8 @@ import NanoVerif.Model.WLearner
        <sub samples> <K> {<samples>}*K | <epsilon1> [ | <fitted parameters> ]*
 
   (see harness/c10.cpp for the fields). The model fits stump / hinge / affine / dense / dstep itself (one cache seeing
-  all features in order: the result does not depend on the thread assignment when the best candidate is unique,
-  `fit_assignment_independent`); for kbest / ksplit / dtree the fitted parameters are read from the augmented op and only
+  all features in increasing index order: by `fit_assignment_independent` / `table_fit_assignment_independent` that is what
+  every assignment of the features to threads gives, exact ties included); for kbest / ksplit / dtree the fitted parameters are read from the augmented op and only
   predict / split / scale / merge are evaluated. Output = the harness' line with the gap between the best and the
   second-best candidate score inserted after `ok` (and after every extra score / the `stump1` keyword): the
   comparator only compares the selection-dependent fields when that gap is not a tie.
@@ -186,7 +186,8 @@ structure Fitted where
 /-- the model's fit; `some none` = no fit -/
 def fitModel (sp : Spec) (sel : List Nat) : Option (Option Fitted) := do
   let (cs, all) ← candidates sp sel
-  let best := fitSeq big cs
+  -- table learners: lexicographic cache update (table.cpp since 5de0896); affine / stump / hinge: first best
+  let best := if sp.kind = "dense" ∨ sp.kind = "dstep" then fitSeqLex big cs else fitSeq big cs
   if best.fitted big then
     pure (some ⟨best.score, gapOf best.score all, toLearner sp.kind best⟩)
   else pure none
